@@ -249,15 +249,38 @@ def _mysql_case(rng):
     return {"in": [2, cols, int(rng.random() < 0.5), int(ordered), upd], "kind": "render-mysql"}
 
 
+def _plan_case(rng):
+    """PostgreSQL compilation + the real batch delivery, not executed: which statements, with which bindparams"""
+    sch = SCHEMAS[1]
+    cols = sch[0]
+    par_set = rng.random() < 0.5
+    par_where = rng.random() < 0.4
+    sets = [[[0, 3], [0, [4, 0]] if par_set else [0, [3, 3]]]]
+    if rng.random() < 0.5:
+        sets.append([[1, 2], [1, [2, 2], [4, 1]] if par_set and rng.random() < 0.5 else [0, [3, 2]]])
+    w = [[rng.randrange(3), [0, [2, 2]], [0, [4, 1]] if par_where else [0, [3, 2]]]] if rng.random() < 0.6 else []
+    if rng.random() < 0.15:
+        cl = [0, [1, [[1, 1]], []]]
+    else:
+        cl = [1, [1, [[1, 1]], []], sets, w]
+    ret = int(rng.random() < 0.8)
+    srt = int(ret and rng.random() < 0.5)
+    embed = rng.randrange(2) if srt else 0  # the counter is only embedded for sort_by_parameter_order
+    ps = [[_row(rng), [rng.randint(0, 9), rng.randint(10, 19)]] for _ in range(rng.randint(1, 5))]
+    return {"in": [5, embed, [cl], ret, srt, rng.choice([1, 2, 3, 1000]), ps], "kind": "plan-pg"}
+
+
 def gen_cases(rng, tier):
     cases = []
     big = tier == "thorough"
-    for _ in range(30000 if big else 2600):
+    for _ in range(3000 if big else 300):
+        cases.append(_plan_case(rng))
+    for _ in range(30000 if big else 1500):
         cases.append(_exec_case(rng))
-    for _ in range(4000 if big else 500):
+    for _ in range(4000 if big else 300):
         cases.append(_render_case(rng, 0))
         cases.append(_render_case(rng, 1))
-    for _ in range(4000 if big else 500):
+    for _ in range(4000 if big else 300):
         cases.append(_mysql_case(rng))
     for bits in range(64):
         cases.append({"in": [4] + [(bits >> i) & 1 for i in range(6)], "kind": "batch-decision"})
@@ -278,6 +301,8 @@ def nontrivial(c):
         return any(cl[0] == 1 and len(cl[2]) >= 2 for cl in t[3])
     if t[0] == 2:
         return len(t[4]) >= 2
+    if t[0] == 5:
+        return len(t[6]) >= 2 and _uses_par(t[2], 0) + _uses_par(t[2], 1) > 0
     return True
 
 
@@ -431,6 +456,17 @@ def _expected(t):
     return ("ok", sorted(tab, key=_rowkey), out)
 
 
+def _uses_par(clauses, k):
+    def hp(e):
+        return any(a == [4, k] for a in e[1:])
+
+    for cl in clauses:
+        if cl[0] == 1:
+            if any(hp(e) for _, e in cl[2]) or (cl[3] and (hp(cl[3][0][1]) or hp(cl[3][0][2]))):
+                return True
+    return False
+
+
 def _has_where_par(t):
     def hp(e):
         return any(a[0] == 4 for a in e[1:])
@@ -473,6 +509,20 @@ def oracle(c, obs):
         return _oracle_render(t, obs)
     if t[0] == 2:
         return _oracle_mysql(t, obs)
+    if t[0] == 5:
+        # every parameter set must be executed with ITS OWN bindparam values
+        ps = t[6]
+        if sum(b[0] for b in obs) != len(ps):
+            return "%d parameter sets executed for %d given" % (sum(b[0] for b in obs), len(ps))
+        i = 0
+        for size, bp in obs:
+            for j in range(size):
+                for k in (0, 1):
+                    if _uses_par(t[2], k) and bp[k] != ps[i + j][1][k]:
+                        return "parameter set %d is executed with bindparam b%d=%s instead of its own value %s (statement of %d rows)" % (
+                            i + j, k, bp[k], ps[i + j][1][k], size)
+            i += size
+        return None
     return None
 
 
@@ -551,7 +601,7 @@ def _oracle_mysql(t, obs):
         return "compile failed"
     toks = obs[1]
     i = toks.index([0, 4])
-    got = [it[0][1] for it in _split_items(toks[i + 1 :])]
+    got = [it[0][1] for it in _split_items(toks[i + 1 :]) if it]
     keys = [c[0] for c in cols]
     if ordered:
         want, seen = [], set()
@@ -569,6 +619,15 @@ def _oracle_mysql(t, obs):
 
 def match_finding(c, what):
     t = c["in"]
+    if t[0] == 5 and "instead of its own value" in what:
+        def wp(k):
+            return any(cl[0] == 1 and cl[3] and any(a == [4, k] for e in cl[3][0][1:] for a in e[1:]) for cl in t[2])
+        def sp(k):
+            return any(cl[0] == 1 and any(a == [4, k] for _, e in cl[2] for a in e[1:]) for cl in t[2])
+        if t[1] == 1 and t[3] and (sp(0) or sp(1)):
+            return "C56-pg-embedded-counter-set-bindparam"
+        if t[3] and (wp(0) or wp(1)) and not (sp(0) or sp(1)) and (t[1] == 1 or not t[4]):
+            return "C56-where-bindparam-batched"
     if t[0] == 0:
         n = len(t[9])
         if n > 1 and _has_bound_index_where(t) and "error class 3" in what:
@@ -793,7 +852,51 @@ def impl(c):
             return [0, _tokens(comp, " AS new ON DUPLICATE" if alias else " ON DUPLICATE")]
         if fam == 4:
             return _batch_decision(t_in)
+        if fam == 5:
+            return _plan(t_in)
     raise ValueError("unknown family")
+
+
+def _plan(t_in):
+    from sqlalchemy.dialects import postgresql
+    from sqlalchemy.dialects.postgresql import insert as ins
+
+    _, embed, clauses, ret, srt, page, ps = t_in
+    cols = SCHEMAS[1][0]
+    t, _ = _schema(cols, SCHEMAS[1][1])
+    keys = [nm(k) for k, _ in cols]
+    st = _build(ins, t, cols, clauses)
+    if ret:
+        st = st.returning(*t.c, sort_by_parameter_order=bool(srt))
+    params = []
+    for r, bp in ps:
+        d = dict(zip(keys, [_n(x) for x in r]))
+        if embed:
+            del d[keys[0]]  # server-generated primary key
+        for k in (0, 1):
+            if _uses_par(clauses, k):
+                d["b%d" % k] = _n(bp[k])
+        params.append(d)
+    dialect = postgresql.dialect()
+    many = len(params) > 1
+    comp = st.compile(dialect=dialect, for_executemany=many, column_keys=sorted(params[0]))
+    imv = comp._insertmanyvalues
+    out = []
+
+    def view(size, d):
+        return [size, [([] if d.get("b%d" % k) is None else d["b%d" % k]) for k in (0, 1)]]
+
+    if many and imv is not None:
+        if bool(imv.embed_values_counter) != bool(embed) and ret and srt:
+            raise AssertionError("harness: embed_values_counter=%s expected %s" % (imv.embed_values_counter, embed))
+        cps = [comp.construct_params(p) for p in params]
+        sbo = imv.sort_by_parameter_order if comp.effective_returning else False
+        for b in comp._deliver_insertmanyvalues_batches(comp.string, cps, cps, None, page, sbo, None):
+            out.append(view(len(b.batch), b.replaced_parameters))
+    else:
+        for p in params:
+            out.append(view(1, p))
+    return out
 
 
 def _batch_decision(t_in):
